@@ -81,8 +81,6 @@ var c13Witness = []string{
 	"SHOW SERIES CARDINALITY GROUP BY time()",
 	"SELECT mean(v) FROM m GROUP BY time(1m, '2000-01-01T00:00:00Z')",
 	"SELECT mean(v) FROM m GROUP BY time(0s, '2000-01-01T00:00:00Z')",
-	"SELECT v FROM m WHERE '2000-01-01' = '2000-13-45'",
-	"SELECT *, derivative(count()) FROM m",
 	"SELECT percentile() FROM m",
 	"SELECT v FROM (SELECT top() FROM m)",
 	"SELECT v FROM m WHERE time > 'x' AND time < -1h / 0",
